@@ -147,7 +147,9 @@ def make_bodies(tier, max_full):
         add('zlibish/%s' % z.hex(), 'deflate', 'raw', z, b'A', 'zlibish')
         for t in range(1, len(z)):
             add('zlibish/%s/trunc%d' % (z.hex(), t), 'deflate', 'raw', z[:t], b'A', 'trunc')
-    idents = [b'a', b'hello', b'\x78\x9cab', b'\x1fab', b'\x1f\x8bxyz', b'\x00\x01\x02\x03\x04\x05']
+    idents = [b'a', b'hello', b'\x78\x9cab', b'\x1fab', b'\x1f\x8bxyz', b'\x00\x01\x02\x03\x04\x05',
+              # the gzip magic / its first byte later than at offset 0 (the format is sniffed once, at the start)
+              b'a\x1fb', b'ab\x1f\x8b\x08\x00', b'a\x1f\x8b']
     for p in idents:
         add('id/%s' % p.hex(), 'none', 'id', p, p, 'identity')
         add('id/%s' % p.hex(), 'gzip', 'id', p, p, 'identity')
@@ -253,18 +255,33 @@ def _run_class(dec, data, pieces):
 
 
 class _Server(fakenet.BaseServer):
-    def __init__(self, head, pieces, close):
-        self.head, self.pieces, self.close_after = head, pieces, close
+    def __init__(self, head, pieces, close, first=b'', reg=None):
+        self.head, self.pieces, self.close_after, self.first = head, pieces, close, first
+        if reg is not None:
+            reg.append(self)
 
     def on_connect(self, ep):
+        self.ep = ep
+        if self.first:
+            ep.send(self.first)      # the measured response follows once the first one has been read (go_on)
+        else:
+            self.go_on()
+
+    def go_on(self):
+        ep = self.ep
         ep.send(self.head)
         ep.send_pieces(self.pieces)
         if self.close_after:
             ep.close()
 
 
-def run_stream(dec, data, pieces, strategy='length'):
-    """Stream.read_response + read_body; returns (events, file_bytes, coarse) ."""
+PRIOR_BODIES = {'gzip': b'earlier gzip body', 'deflate': b'earlier deflate body', 'none': b'earlier plain body'}
+
+
+def run_stream(dec, data, pieces, strategy='length', prior=None):
+    """Stream.read_response + read_body; returns (events, file_bytes, coarse).
+    prior = 'gzip' | 'deflate' | 'none': an earlier response with that Content-Encoding is read from the same
+    connection by the same Stream first (its decoder state must not leak into the measured response)."""
     proxy = _ZlibProxy()
     saved = wpull.decompression.zlib
     wpull.decompression.zlib = proxy
@@ -306,8 +323,16 @@ def run_stream(dec, data, pieces, strategy='length'):
     else:
         head += b'Transfer-Encoding: chunked\r\n\r\n'
         wire = [b'%x\r\n' % len(p) + p + b'\r\n' for p in parts] + [b'0\r\n\r\n']
+    first = b''
+    if prior is not None:
+        pb = PRIOR_BODIES[prior]
+        if prior != 'none':
+            pb = compress(pb, 6, 'gzip' if prior == 'gzip' else 'zlib')
+        first = (b'HTTP/1.1 200 OK\r\n' + (b'Content-Encoding: ' + prior.encode() + b'\r\n' if prior != 'none' else b'')
+                 + b'Connection: keep-alive\r\nContent-Length: %d\r\n\r\n' % len(pb) + pb)
     net = fakenet.FakeNet()
-    net.listen('10.0.0.1', 80, lambda ep: _Server(head, wire, strategy == 'close'))
+    servers = []
+    net.listen('10.0.0.1', 80, lambda ep: _Server(head, wire, strategy == 'close', first, servers))
     sink = io.BytesIO()
     writes = []
 
@@ -321,6 +346,15 @@ def run_stream(dec, data, pieces, strategy='length'):
         await conn.connect()
         st = TStream(conn, keep_alive=True)
         req = Request('http://h.test/')
+        if prior is not None:
+            resp0 = await st.read_response()
+            got = io.BytesIO()
+            await st.read_body(req, resp0, file=got)
+            if got.getvalue() != PRIOR_BODIES[prior]:
+                raise RuntimeError('harness: earlier response not read back as sent')
+            del ev[:]
+            del writes[:]
+            servers[0].go_on()
         resp = await st.read_response()
         await st.read_body(req, resp, file=Sink())
         return resp
